@@ -369,3 +369,54 @@ def rule_footnote_wrap(ctx, rid):
                                   ("render::text_renderer::RenderOptions", "wrap_links"))
                 ctx.check(unreachable_without_edges(b, a, cut), rid, "fmt_links:break-test-under-wrap_links#%d" % n, b.term(a)["span"], b.id, "")
     ctx.floor(rid, "footnote break tests against self.width", n, 2)
+
+
+def rule_min_size_matches_shrink(ctx, rid):
+    """INV-SHRINK's premise: the side-by-side / stacked decision compares the renderer width with
+    min_size = Σ min_width + (number of columns − 1), i.e. with the same separator count that the shrink loop
+    charges (num_cols − 1 over all columns).  If the two disagree a table can be laid out side by side at a
+    width where no column has slack: columns holding text are shrunk to zero (their cells are dropped) and the
+    decrement can underflow."""
+    F = ctx.facts
+    b = F.one("render_table_tree")
+    forms = {}
+    for name in ("min_size", "vert_row", "num_cols", "width"):
+        for l, loc in enumerate(b.locals):
+            if loc.get("name") == name:
+                fs = []
+                for r in b.defs()[l]:
+                    if r[1] not in b.reachable():
+                        continue
+                    if r[0] == "stmt" and "use" in r[3]["rv"]:
+                        fs.append(norm(b.expr_top(r[3]["rv"]["use"], expand_named=False)))
+                    elif r[0] == "call":
+                        fs.append(norm("%s(%s)" % (callee_method(r[2]), ", ".join(b.expr(a) for a in r[2]["args"]))))
+                forms.setdefault(name, []).extend(fs)
+    ms = forms.get("min_size", [])
+    ok_ms = len(ms) == 1 and ms[0].startswith("(Iterator::sum(") and "min_width" not in ms[0].split(") + ")[-1] and \
+        ms[0].endswith("+ <impl usize>::saturating_sub(<T, A>::len(&col_sizes), 1_usize))")
+    # the summed closure reads est.min_width
+    sums = [t for bb, t in b.calls(lambda cd, t: callee_method(t) == "sum")]
+    ok_closure = False
+    for (cbb, i, cb, ops, fields) in closure_bodies_created_in(F, b):
+        reads = {n for (o, n) in (f for x in cb.reachable() for st in cb.stmts(x) if st["k"] == "assign"
+                                  for f in place_fields(op_place(st["rv"].get("use")) or {"p": []}))}
+        if reads == {"min_width"} and not cb.calls():
+            ok_closure = True
+    ctx.check(ok_ms and ok_closure, rid, "min_size=Σmin_width+(n−1)", b.span, b.id,
+              "min_size is computed as %s; the shrink loop charges one separator per column boundary (n − 1), and the "
+              "layout decision must use the same count" % ms)
+    nc = forms.get("num_cols", [])
+    ctx.check(nc == ["len(&col_widths)"], rid, "shrink:num_cols=len(col_widths)", b.span, b.id, str(nc))
+    # col_widths has one entry per col_sizes entry (both branches map over col_sizes)
+    vr = forms.get("vert_row", [])
+    # decision: vert_row = raw || min_size > width || width == 0
+    cmp_ok = False
+    for a in b.reachable():
+        if b.term(a)["k"] == "switch":
+            neg, src = b.switch_source(a)
+            if src[0] == "bin" and src[1]["bin"] in ("Gt", "Lt"):
+                ea, eb = norm(b.expr(src[1]["a"])), norm(b.expr(src[1]["b"]))
+                if (src[1]["bin"] == "Gt" and (ea, eb) == ("min_size", "width")) or (src[1]["bin"] == "Lt" and (ea, eb) == ("width", "min_size")):
+                    cmp_ok = True
+    ctx.check(cmp_ok, rid, "stacked-iff-min_size>width", b.span, b.id, "the layout decision must compare min_size with the renderer width")
